@@ -15,4 +15,5 @@ let entries : (string * (byte list -> byte list)) list = [
   "machine_spec", machine_spec_line;
   "example_model", example_model_line;
   "enum_model", enum_model_line;
+  "schema_scan_model", schema_scan_model_line;
 ]
